@@ -55,7 +55,16 @@ class Harness:
         self.name = name
         self.file = path
         self.attrs = attrs
-        self.props = attrs.get("props", "").split(",")
+        # props=C05,C11:thorough  -> serves C05 in its own tier and C11 only in the thorough tier
+        self.prop_tier = {}
+        self.props = []
+        for item in attrs.get("props", "").split(","):
+            if ":" in item:
+                pid, t = item.split(":", 1)
+                self.prop_tier[pid] = t
+            else:
+                pid = item
+            self.props.append(pid)
         self.tier = attrs.get("tier", "quick")
         self.cap = int(attrs.get("cap", "600"))
         self.mem_gb = int(attrs.get("mem", "24"))
@@ -123,12 +132,12 @@ def select(harnesses, prop, tier, seed, only):
         return [h for h in sel if h.name in only]
     if tier == "thorough":
         return sel
-    quick = [h for h in sel if h.tier == "quick"]
+    quick = [h for h in sel if h.prop_tier.get(prop, h.tier) == "quick"]
     # families: the quick tier runs `quickpick` seeded members of each family (each member is
     # still decided by the solver over its whole domain); thorough runs all members
     fams = {}
     for h in sel:
-        if h.family and h.tier != "quick":
+        if h.family and h.prop_tier.get(prop, h.tier) != "quick" and prop not in h.prop_tier:
             fams.setdefault(h.family, []).append(h)
     for fam, members in sorted(fams.items()):
         k = max(int(m.attrs.get("quickpick", "0")) for m in members)
@@ -194,6 +203,15 @@ def snapshot(dst, kf, mode, notes):
         shutil.copytree(hd, os.path.join(src, dest))
         with open(hostp, "a") as f:
             f.write(f"\n{CFG_GUARD}\n{decl}\n")
+    if os.environ.get("VERIF_PINNED_TREE") == "1":
+        # re-demonstrating the original defects on the pinned tree: drop harnesses that name post-repair functions
+        for rel, decl in (("decoder/vh/c04b.rs", "mod c04b;"),):
+            fp = os.path.join(src, rel)
+            if os.path.exists(fp):
+                os.remove(fp)
+                mp = os.path.join(os.path.dirname(fp), "mod.rs")
+                open(mp, "w").write(open(mp).read().replace(decl + "\n", ""))
+        notes.append("VERIF_PINNED_TREE=1: harness file c04b.rs (names post-repair functions) dropped")
     with open(os.path.join(src, "verif", "kf.rs"), "w") as f:
         f.write(kf_consts(kf))
     with open(os.path.join(src, "verif", "seed.rs"), "w") as f:
@@ -575,6 +593,7 @@ def main(argv):
     # ---- replay failures natively -------------------------------------------------------
     open_by_key = {e["key"]: e for e in kf.get("open", [])}
     violations, known_lines, inconclusive = [], [], []
+    known_by_key = {}
     os.makedirs(os.path.join(VERIF, "replays", prop), exist_ok=True)
     for h in sel:
         r = results[h.name]
@@ -634,13 +653,17 @@ def main(argv):
         r["replay_file"] = rp
         if h.witness and h.witness in open_by_key:
             e = open_by_key[h.witness]
-            known_lines.append(f"KNOWN-FINDING: property={prop} {e['what']} [key={e['key']} witness={h.name} replay={os.path.relpath(rp, VERIF)}]")
+            known_by_key.setdefault(e["key"], []).append((h.name, os.path.relpath(rp, VERIF)))
             r["verdict"] = "known-finding"
         else:
             violations.append((h, rp, r))
             r["verdict"] = "violation"
 
     # a witness of an open finding that now *holds* simply prints no KNOWN-FINDING line.
+    for key, ws in sorted(known_by_key.items()):
+        e = open_by_key[key]
+        known_lines.append(f"KNOWN-FINDING: property={prop} {e['what']} [key={key} witnesses=" +
+                           ",".join(f"{n}:{r}" for n, r in ws) + "]")
     for l in known_lines:
         log(l)
     for h, rp, r in violations:
